@@ -673,6 +673,15 @@ func c05GenRec(rnd *Rand, nrefs int, kind int, target int) *c05Sem {
 		}
 	}
 	c05SetSeq(rnd, s, rnd.pick([]int{0, 1, 2, 3, 4, 5, 31, 32, 33, 100, 101, rnd.rng(0, 300)}))
+	if rnd.coin(1, 12) {
+		// power-of-two and slab-sized sequence lengths (and their neighbours), half of them without qualities:
+		// the writer emits a run of 0xff for absent qualities, the reader turns it back into nil
+		n := rnd.pick([]int{255, 256, 257, 511, 512, 1023, 1024, 1025, 2047, 2048, 2049, 3072, 4096, 8192})
+		c05SetSeq(rnd, s, n)
+		if rnd.coin(1, 2) {
+			s.QualAbsent, s.Qual = true, nil
+		}
+	}
 	switch kind {
 	case 1:
 		for _, t := range []byte(c05AuxTypes) {
